@@ -13,6 +13,7 @@ Logger: ``vgi_rpc.http.retry`` — retry attempts are logged at DEBUG level.
 from __future__ import annotations
 
 import logging
+import math
 import random
 import time
 from dataclasses import dataclass, field
@@ -35,6 +36,13 @@ _logger = logging.getLogger("vgi_rpc.http.retry")
 # that indicate transient failures safe to retry.
 _DEFAULT_RETRYABLE: frozenset[int] = frozenset({429, 502, 503, 504})
 
+# Largest ``n`` for which ``2.0**n`` is still a finite float.  Beyond it the
+# un-jittered backoff ceiling is already far above any finite ``backoff_max``,
+# so clamping the exponent changes no delay; it only keeps
+# ``backoff_base * 2**attempt`` from raising ``OverflowError`` once a very
+# large ``max_retries`` budget has been running for 1024 attempts.
+_MAX_BACKOFF_EXPONENT = 1023
+
 
 @dataclass(frozen=True)
 class HttpRetryConfig:
@@ -52,8 +60,8 @@ class HttpRetryConfig:
             on 429/503 responses.
 
     Raises:
-        ValueError: If *max_retries* < 0, *backoff_base* < 0, or
-            *backoff_max* < 0.
+        ValueError: If *max_retries* < 0, or *backoff_base* / *backoff_max*
+            is negative, NaN or infinite.
 
     """
 
@@ -68,10 +76,13 @@ class HttpRetryConfig:
         """Validate configuration values."""
         if self.max_retries < 0:
             raise ValueError(f"max_retries must be >= 0, got {self.max_retries}")
-        if self.backoff_base < 0:
-            raise ValueError(f"backoff_base must be >= 0, got {self.backoff_base}")
-        if self.backoff_max < 0:
-            raise ValueError(f"backoff_max must be >= 0, got {self.backoff_max}")
+        # ``0 <= x < inf`` is False for NaN as well as for negatives and inf.
+        # A NaN or infinite bound would defeat every ``min``/``max`` clamp in
+        # ``_compute_delay`` and hand ``time.sleep`` a value it rejects.
+        if not (0 <= self.backoff_base < math.inf):
+            raise ValueError(f"backoff_base must be >= 0 and finite, got {self.backoff_base}")
+        if not (0 <= self.backoff_max < math.inf):
+            raise ValueError(f"backoff_max must be >= 0 and finite, got {self.backoff_max}")
 
 
 class HttpTransientError(RpcError):
@@ -152,8 +163,12 @@ def _compute_delay(
         Delay in seconds before the next attempt.
 
     """
-    exp_delay = config.backoff_base * (2**attempt)
-    jittered = random.uniform(0, exp_delay)
+    exp_delay = float(config.backoff_base) * 2.0 ** min(attempt, _MAX_BACKOFF_EXPONENT)
+    # Float arithmetic (an ``int`` base would otherwise grow without bound): a
+    # huge ``backoff_base`` saturates to ``inf`` instead of raising, and
+    # ``random.uniform(0, inf)`` is ``inf`` or NaN.  The ceiling is then above
+    # any ``backoff_max``, so skip the jitter and let the clamp decide.
+    jittered = random.uniform(0, exp_delay) if exp_delay < math.inf else exp_delay
     delay = min(jittered, config.backoff_max)
 
     if config.respect_retry_after and retry_after is not None:
